@@ -85,7 +85,9 @@ func selectWork(e *Engine, props []string, only string) []*FuncResult {
 			cc.HasMod = true
 			ct = &cc
 		}
-		if ct.Assumed || ct.Inline || ct.Summary {
+		if ct.Assumed || ct.Summary || (ct.Inline && len(ct.Ensures) == 0 && len(ct.Callsites) == 0) {
+			// (an `inline` contract with postconditions is still verified on its own: callers keep
+			// seeing the body, the clauses pin the function down for the property)
 			continue
 		}
 		if len(props) > 0 && !intersects(ct.Props, props) {
